@@ -336,6 +336,26 @@ def check(ctx):
         lv = df.leaves(defs, arg) if arg is not None else set()
         ok = ("param", p0) in lv and not sliced
         ctx.ob("R6", f"{CC}:code_cache_name", f"{short(c, 60)} digests the whole `{p0}` (no slice/prefix)", ok, key="digest-partial", where=loc(c))
+    # text -> bytes before hashing: the encoding must be injective and fixed.  utf-8/16/32 with strict or
+    # surrogatepass are; a lossy handler (replace / ignore / xmlcharrefreplace ...) or a narrower codec maps
+    # different texts to the same bytes, surrogateescape maps two escaped surrogates onto a real character, and a
+    # codec read from run-time configuration is whatever the user sets.
+    INJ_CODEC = {"utf-8", "utf8", "utf_8", "utf-16", "utf-32", "utf-16-le", "utf-16-be", "utf-32-le", "utf-32-be"}
+    INJ_ERRORS = {"strict", "surrogatepass"}
+    ccn_flat = flat(ctx, ccn, 2)
+    encs = [c for c in calls_in(ccn_flat) if isinstance(c.func, ast.Attribute) and c.func.attr == "encode"] + [c for c in calls_in(ccn_flat) if call_name(c) in ("bytes", "codecs.encode", "os.fsencode")]
+    for c in encs:
+        if call_name(c) == "os.fsencode":
+            enc_ok, why = False, "os.fsencode uses the locale's codec with surrogateescape"
+        else:
+            pos = list(c.args[1:] if call_name(c) in ("bytes", "codecs.encode") else c.args)
+            codec = pos[0] if pos else kwarg(c, "encoding")
+            errs = pos[1] if len(pos) > 1 else kwarg(c, "errors")
+            cv = "utf-8" if codec is None else const_value(codec, None)
+            ev = "strict" if errs is None else const_value(errs, None)
+            enc_ok = isinstance(cv, str) and cv.lower() in INJ_CODEC and isinstance(ev, str) and ev in INJ_ERRORS
+            why = None if enc_ok else f"codec={unparse(codec) if codec is not None else 'utf-8'} errors={unparse(errs) if errs is not None else 'strict'}"
+        ctx.ob("R6", f"{CC}:code_cache_name", f"`{short(c, 60)}`: the text is turned into bytes by a fixed injective encoding (UTF-8/16/32, strict or surrogatepass) before it is hashed - two different code strings never hash the same bytes", enc_ok, key="digest-encoding-not-injective", where=loc(c), detail=why)
     # script-cache names: the path mangling must be injective (two scripts never share an entry).
     # The scheme is an escape code: every mapped character becomes <esc><char>; it is uniquely
     # decodable iff all images are distinct two-character strings starting with the escape character
